@@ -3,7 +3,7 @@
    C11 memory model allows beyond interleavings are not covered (see C17_orderings).
    Property theorems only; each is closed by [exact] of a lemma proved in proofs/. *)
 From SQ Require Import lib.Base gen.Gen_C17.
-From SQ Require model.Spsc model.SpscExplore proofs.SpscClose proofs.SpscData proofs.SpscProofs proofs.SpscWake proofs.SpscWakeInv proofs.SpscWakeThm proofs.SpscFix.
+From SQ Require model.Spsc model.SpscExplore proofs.SpscClose proofs.SpscData proofs.SpscProofs proofs.SpscWake proofs.SpscWakeInv proofs.SpscWakeThm proofs.SpscFix proofs.SpscJudge proofs.SpscNoSelf.
 From SQ Require model.CursorRing model.Worker model.RxRing model.TxRings proofs.CursorProofs proofs.WorkerProofs proofs.RxRingProofs proofs.TxRingsProofs proofs.TxRingsJudge.
 Import Spsc.
 Local Open Scope N_scope.
@@ -86,6 +86,41 @@ Theorem C17_spsc_quiescent_wake : forall cap sched pp cp, 2 <= cap ->
   (quiet (ppc s) = true -> SpscExplore.parked_r s = true -> SpscExplore.nonempty_or_closed s = false) /\
   (quiet (cpc s) = true -> SpscExplore.parked_s s = true -> SpscExplore.space_or_closed cap s = false).
 Proof. exact SpscWakeThm.quiescent_wake. Qed.
+
+(* Towards judge_run for the spsc component (PARTIAL).  Operation-level termination: from any state,
+   a producer / consumer operation run alone reaches a quiescent program counter within the fuel that
+   `run` gives it (the measure 5 * items-to-go + rank of the program counter decreases at every step). *)
+Theorem C17_spsc_op_terminates : forall fuel cap s,
+  ((SpscJudge.pm s <= fuel)%nat -> quiet (ppc (p_run false fuel cap s)) = true) /\
+  ((SpscJudge.cm s <= fuel)%nat -> SpscJudge.cj s -> quiet (cpc (c_run false fuel cap s)) = true).
+Proof. exact (fun fuel cap s => conj (SpscJudge.p_run_quiet fuel cap s) (SpscJudge.c_run_quiet fuel cap s)). Qed.
+
+(* PARTIAL judge_run: for every capacity >= 2 and every schedule over the alphabet
+   { try_slice + push k, try_slice + pop k, drop sender, drop receiver } (operations after a drop are
+   skipped as in the harness; no polls, no inline mode) the per-operation part of the executable
+   judgement (SpscJudge.judge_ops_nt = Spsc.judge_ops without the trailer of the final drops) accepts the
+   model's own output.  Missing for the full judge_run: the wake-up rules for the poll operations
+   (no-self-notify at operation granularity), the inline mode, and the trailer (the values freed by
+   drop_contents are exactly the unreceived ones). *)
+Theorem C17_spsc_judge_model_partial : forall cap c pl, 2 <= cap -> Forall SpscJudge.op0245 pl ->
+  SpscJudge.judge_ops_nt (S (length (SpscJudge.flat pl))) c (SpscJudge.flat pl) false (mkJ [] [] None None false false)
+    (snd (run_ops (S (length (SpscJudge.flat pl))) cap (SpscJudge.flat pl) false (init cap))) = true.
+Proof. exact SpscJudge.spsc_judge_ops_partial2. Qed.
+
+(* Another ingredient of judge_run for the poll operations: no self-notification at operation
+   granularity.  While the peer thread is quiescent, "calm" (the waker word is not WAKING unless this
+   thread itself holds it in drop_contents, the thread is not in the late branches of register(), its
+   waker has not been invoked) is preserved by the thread's own steps: a poll run alone never wakes
+   itself, so the wake count it reports with Pending is the one the later wake must exceed. *)
+Theorem C17_spsc_no_self_notify : forall cap s,
+  SpscClose.cinv s = true ->
+  (SpscWakeInv.winv_r s = true -> quiet (ppc s) = true -> SpscNoSelf.calm_r s = true ->
+     SpscNoSelf.calm_r (cstep false cap s) = true) /\
+  (SpscWakeInv.winv_s cap s = true -> quiet (cpc s) = true -> SpscNoSelf.calm_s s = true ->
+     SpscNoSelf.calm_s (pstep false cap s) = true).
+Proof.
+  exact (fun cap s HC => conj (SpscNoSelf.no_self_notify_c cap s HC) (SpscNoSelf.no_self_notify_p cap s HC)).
+Qed.
 
 (* the bounded exploration of phase 1, kept as an example: every interleaving of three close/drop
    scenarios at internal capacity 2, every intermediate state, including delivery of the pending wake
@@ -213,3 +248,6 @@ Print Assumptions C17_spsc_quiescent_wake.
 Print Assumptions C17_rxring_judge_model.
 Print Assumptions C17_txrings_no_lost_wakeup.
 Print Assumptions C17_txrings_judge_model.
+Print Assumptions C17_spsc_op_terminates.
+Print Assumptions C17_spsc_judge_model_partial.
+Print Assumptions C17_spsc_no_self_notify.
